@@ -16,9 +16,7 @@ from oracle import DatasetView, LeanOracle, amaku_solution
 
 NEEDS_DATASET = True
 TARGETS = ["RdVerif.Props.C04"]
-THEOREMS = ["exact_inverses", "exact_diagonalises", "rates_from_half_lives", "graph_and_listed_data_ok",
-            "parents_is_transpose", "pattern_is_ancestors", "float_entries_close", "float_aggregate_bound",
-            "float_decay_consts_close", "float_masses_close", "pickles_identical", "year_close"]
+THEOREMS = ["RdVerif.C04.exact_inverses", "RdVerif.C04.exact_diagonalises", "RdVerif.C04.rates_from_half_lives", "RdVerif.C04.graph_and_listed_data_ok", "RdVerif.C04.parents_is_transpose", "RdVerif.C04.pattern_is_ancestors", "RdVerif.C04.float_entries_close", "RdVerif.C04.float_aggregate_bound", "RdVerif.C04.float_decay_consts_close", "RdVerif.C04.float_masses_close", "RdVerif.C04.pickles_identical", "RdVerif.C04.year_close"]
 PARTIAL = {
     "float_aggregate_bound": "kernel-checked bound on Σ_k|ĈĈ⁻¹−CC⁻¹| ≤ 4e-12 and Σ_k|CC⁻¹| ≤ 1000 for all (i,j); the step from "
                              "these numbers to 'contribution to any decay result ≤ 5e-12·N(0)' is the triangle inequality with "
